@@ -8,6 +8,8 @@ from nvlib.check import Prop
 OT_SIZE = 16          # ObjectHashSize written into the harness config (small: chains are crossed by small populations)
 NBP = 8               # blueprints b0..b7 for small populations
 NBP_LARGE = 320       # blueprints available in the mudlib copy (large populations)
+NIH = 48              # i<k>.c = `inherit "/c08/b<k>";` for k < NIH
+MAX_INHERIT = 8       # MaxInheritDepth written into the harness config (reachable by nested loads)
 
 
 def scripts_first(lines):
@@ -30,9 +32,11 @@ class C08(Prop):
                 "NV.C08.load_order_tie", "NV.C08.clone_order_tie", "NV.C08.find_or_load_order_tie",
                 "NV.C08.hb_remove_order_tie", "NV.C08.present2_order_tie", "NV.C08.flag_bits_tie", "NV.C08.superWalk_clear", "NV.C08.acyclic_redirect", "NV.C08.init_inv",
                 "NV.C08.objects_order_tie", "NV.C08.hb_ops_tie", "NV.C08.hash_prefix_tie", "NV.C08.add_action_cond_tie",
-                "NV.C08.living_command_cond_tie", "NV.C08.move_cond_tie", "NV.C08.destruct_cond_tie",
+                "NV.C08.living_command_cond_tie", "NV.C08.move_cond_tie", "NV.C08.destruct_cond_tie", "NV.C08.inherit_order_tie",
                 "NV.C08.move_walk_terminates", "NV.C08.task_no_hang", "NV.C08.no_hang", "NV.C08.objects_filter_sound",
-                "NV.C08.catch_contains_errors", "NV.C08.catch_restores_guards"]
+                "NV.C08.catch_contains_errors", "NV.C08.catch_restores_guards",
+                "NV.C08.absMap_spec", "NV.C08.lookup_refines_read", "NV.C08.enter_refines_insert",
+                "NV.C08.enter_refused_when_present", "NV.C08.remove_refines_delete", "NV.C08.table_is_map_reachable"]
     consts = [("oDestructed", "O_DESTRUCTED"), ("oEnableCommands", "O_ENABLE_COMMANDS"), ("oClone", "O_CLONE")]
     const_headers = ["lpc/object.h"]
     quick_n = 700
@@ -51,8 +55,10 @@ class C08(Prop):
                   "contains(y) <-> super(x) = y; no duplicates; forest; destructed objects in no registry, no inventory, "
                   "without environment) is preserved by every task for all hook oracles, all fuels, all histories; no task "
                   "reaches a NULL / dangling dereference (no_crash) or an endless super walk (no_hang); objects(filter) lists "
-                  "only live objects, in obj_list order (objects_filter_sound); the model is tied to the source by the "
-                  "regenerated Pearson hash table / hash sizes / prefix lengths / comparison operators, by 17 tie obligations "
+                  "only live objects, in obj_list order (objects_filter_sound); the name table refines a finite map (NV/C08/Refine.lean: "
+                  "find = read, enter = insert / refused, unlink = delete); load_object's inherit detour with its re-lookup and "
+                  "user_parser's loop with actions returning 0 are inside the interpreter the theorems quantify over; the model is tied to the source by the "
+                  "regenerated Pearson hash table / hash sizes / prefix lengths / comparison operators, by 18 tie obligations "
                   "over regenerated statement orders and conditions, and by running the real driver "
                   "and the model on the same generated histories with a walker over the real structures after every step; "
                   "the Lean specification oracle judges every implementation trace")
@@ -62,7 +68,11 @@ class C08(Prop):
                   "top theorem judge(model trace) = [] is not (its semantic clauses are the invariant theorems); "
                   "destructed_never_called is about the model's apply - the C apply() does not refuse destructed objects, "
                   "each call site tests first (checked by the oracle clause destructed-called on every logged callback)")
-    rule = ("[extend round: adds objects(filter) issued from the top level and from hooks with filters that destruct the "
+    rule = ("[round 2: adds loads / clones / string moves of objects that INHERIT a not yet loaded program whose create() - and "
+            "the create() of the object itself - re-enters the load (loads, clones, moves to, destructs the objects being "
+            "loaded, errors, catch; inherit depth limit 8); several objects offering one verb whose actions return 0 after "
+            "destructing / moving the command giver or themselves or calling remove_action; load_object() result reported "
+            "beside find_object()] [extend round: adds objects(filter) issued from the top level and from hooks with filters that destruct the "
             "object asked about / others / the caller, clone, move, nest, raise errors; catch() around destructs, moves, "
             "loads and error() inside every hook kind; oracle self-test of 94 traces] [audit round: adds move_object(string) / first_inventory(string) with loads that run create() hooks, present() with "
             "id() hooks, add_action / command(), the backend tick (heart_beat() of every enabled object incl. the last one "
@@ -74,8 +84,8 @@ class C08(Prop):
             "and (every 40th case) 100..260 objects on a 16 bucket name table; walker after every step, snapshot + LPC probe "
             "after every step (small) or periodically (large); a case is non-trivial when its trace has >= 2 lines; "
             "distinct = distinct canonical implementation trace")
-    not_covered = ["add_action flags (V_SHORT / V_NOSPACE), function-pointer actions, action functions returning 0 (illegal_sentence_action), remove_action, notify_fail",
-                   "virtual objects (master compile_object), the master / simul_efun reload path of destruct_object, swapping, sockets (shadows are compiled out: NO_SHADOWS)",
+    not_covered = ["add_action flags (V_SHORT / V_NOSPACE), function-pointer actions, carry-over arguments, notify_fail",
+                   "virtual objects (master compile_object), the master / simul_efun reload path of destruct_object, valid_object denial, pre_text loads, swapping, sockets (shadows are compiled out: NO_SHADOWS)",
                    "objects(filter): the function-pointer form, O_HIDDEN / valid_hide, populations above 1000 objects (extend_string branch); completeness (every object live before and after is listed) is an oracle clause, not a theorem",
                    "present() 1-argument / object-argument forms, deep_inventory, say / tell_room / shout walks (no listener objects), reset() / clean_up() walk of look_for_objects_to_swap",
                    "the string-level top theorem judge(model trace) = [] is not proved; its semantic clauses are (reachable_inv, no_crash, init_only_adjacent, destructed_never_*)",
@@ -253,6 +263,18 @@ class C08(Prop):
             "objectsFilterSkipCond": cond("lib/lpc/array.c", r"\nf_objects \(void\)\s*\{",
                                           r"ob = tmp\[j\];\s*if \((.*?)\)\s*continue;", "objectsFilterSkipCond"),
         }
+        load_hdr = r"\nobject_t\* load_object \(const char \*mudlib_filename, const char \*pre_text\) \{"
+        orders["inheritOrder"] = order("src/simulate.c", load_hdr, [
+            ("depth-guard", r"\+\+num_objects_this_thread > CONFIG_INT \(__INHERIT_CHAIN_SIZE__\)"),
+            ("self-inherit-error", r"Illegal to inherit self"),
+            ("lookup-inherited", r"inh_obj = lookup_object_hash \(inhbuf\)"),
+            ("load-inherited", r"inh_obj = load_object \(inhbuf, 0\);"),
+            ("missing-inherited-error", r"Inherited file '/%s' does not exist"),
+            ("relookup-self", r"ob = lookup_object_hash \(name\)"),
+            ("reload-self", r"ob = load_object \(name, 0\);"),
+            ("alloc", r"ob = get_empty_object \(prog->num_variables_total\);")])
+        conds["loadRelookupCond"] = cond("src/simulate.c", load_hdr, r"-Beek\s*\*/\s*if \((.*?)\)\s*\{\s*ob = load_object", "loadRelookupCond")
+        conds["loadDepthCond"] = cond("src/simulate.c", load_hdr, r"if \((\+\+num_objects_this_thread[^;]*?)\)\s*error", "loadDepthCond")
         orders["objectsOrder"] = order("lib/lpc/array.c", r"\nf_objects \(void\)\s*\{", [
             ("collect-loop", r"for \(n = 0, ob = obj_list; ob; ob = ob->next_all\)"),
             ("collect", r"tmp\[n\] = ob;"),
@@ -271,6 +293,10 @@ class C08(Prop):
                  "errNoDestSrc": ("lib/efuns/inventory.c", "move_object failed: could not find destination"),
                  "errRestrictSrc": ("src/simulate.c", "*Only this_object() can be destructed from move_or_destruct."),
                  "errCloneCloneSrc": ("src/simulate.c", "*Cannot clone from a clone!"),
+                 "errChainSrc": ("src/simulate.c", "*Inherit chain too deep: > "),
+                 "errNoInheritSrc": ("src/simulate.c", "*Inherited file '/"),
+                 "errIsa1Src": ("src/simulate.c", "*Illegal to call remove_action() from a verb returning zero."),
+                 "errIsa2Src": ("src/simulate.c", "*Illegal to move or destruct an object defining actions from a verb function which returns zero."),
                  "errEfunCbSrc": ("lib/lpc/array.c", "*Object destructed during efun callback."),
                  "errInitDestedSrc": ("src/simulate.c", "*An object was destructed at call of "),
                  "errItemDestedSrc": ("src/simulate.c", "*The object to be moved was destructed at call of "),
@@ -295,7 +321,9 @@ class C08(Prop):
                "/-- lib/rc/rc.cpp `__LIVING_HASH_TABLE_SIZE__` -/",
                "def livingHashSize : Nat := %s" % m2.group(1),
                "/-- `ObjectHashSize` of the harness configuration (props/c08.py), rounded up to a power of two as init_otable does -/",
-               "def otSize : Nat := %d" % OT_SIZE]
+               "def otSize : Nat := %d" % OT_SIZE,
+               "/-- `MaxInheritDepth` of the harness configuration (props/c08.py) = `__INHERIT_CHAIN_SIZE__` -/",
+               "def inheritChainSize : Nat := %d" % MAX_INHERIT]
         return "\n".join(out)
 
 
@@ -378,6 +406,27 @@ class C08(Prop):
         mk("catch-variants", """script o3 init ct,err;aa,o3,va\nscript o3 act ct,mv,o4,o4;ct,de,o3\nscript o2 hbeat ct,err;de,o4\nscript o5 create ct,err;ct,mv,o5,o5
             t ld,b0\nt cl,b0\nt cl,b0\nt ec,o4\nt mv,o4,o2\nt mv,o3,o2\nsnap\nt cmd,o4,va\nsnap\nt hbe,o2\ntick\nsnap\nprobe\ntick
             t ct,cl,b0\nt ct,ld,bad\nt ct,mvs,o2,nx\nt ct,mv,o2,o2\nt ct,nop\nt ct,err\nt de,o2\n""" + tail)
+        # actions returning 0: user_parser goes on with the next sentence - unless the action removed sentences (error)
+        # or destructed the command giver (its sentence list is freed)
+        mk("action-destructs-the-command-giver-and-returns-0", """script o4 act de,o3;ret0\nt ld,b0\nt cl,b0\nt cl,b0\nt cl,b0\nt cl,b0
+            t mv,o3,o2\nt mv,o4,o2\nt mv,o5,o2\nt mv,o6,o2\nt ec,o6\nt aa,o5,vb\nt aa,o5,vc\nt aa,o4,vb\nt de,o6\nt ec,o3\nt aa,o5,va\nt aa,o4,va
+            snap\nt cmd,o3,va\n""" + tail)
+        mk("actions-returning-0", """script o4 act ret0\nscript o5 act nop\nscript o4 act mv,o4,o6;ret0\nscript o4 act ra,o4,va;ret0\nscript o5 act ra,o5,va
+            script o5 act de,o4;ret0\nscript o5 act ret0\nscript o5 act cmd,o3,vb;ret0\nscript o4 act ret0
+            t ld,b0\nt cl,b0\nt cl,b0\nt cl,b0\nt ld,b1\nt mv,o3,o2\nt mv,o4,o2\nt mv,o5,o2\nt ec,o3\nt aa,o5,va\nt aa,o4,va\nsnap
+            t cmd,o3,va\nsnap\nt cmd,o3,va\nsnap\nt mv,o4,o2\nt aa,o4,va\nt cmd,o3,va\nsnap\nt aa,o4,va\nt cmd,o3,va\nsnap\nt cmd,o3,va\nt aa,o4,vb\nt cmd,o3,va\nt cmd,o3,vb
+            t ra,o4,vb\nt ra,o5,va\nt ra,o9,va\nt dc,o3\nt ra,o3,va\n""" + tail)
+        # load_object's inherit detour: the inherited program is loaded first, its create() re-enters the load
+        mk("inherit-base-create-loads-child", "script o2 create ld,i0\nt ld,i0\nsnap\nprobe\nt fo,i0\nt ld,i0\nt de,o3\nsnap\nt fo,i0\nt fo,b0\nt ld,i0\n" + tail)
+        mk("inherit-base-create-clones-child", "script o2 create cl,i1\nt ld,i1\nsnap\nprobe\nt fo,i1\nt cl,i1\nt de,o3\nt fo,i1#1\nt ld,i1\n" + tail)
+        mk("inherit-base-destructs-itself", "script o2 create de,o2\nt ld,i2\nsnap\nprobe\nt fo,i2\nt fo,b2\nt ld,i2\n" + tail)
+        mk("inherit-base-create-errors", "script o2 create err\nt ld,i3\nsnap\nprobe\nt ld,i3\nt fo,i3\nt cl,i3\n" + tail)
+        mk("inherit-child-create-loads-itself", "script o3 create ld,i4;cl,i4;fo,i4\nscript o4 create ld,i4;de,o3\nt ld,b4\nt ld,i4\nsnap\nprobe\nt fo,i4\nt ld,i4\n" + tail)
+        mk("inherit-chain-too-deep", "\n".join("script o%d create de,o%d" % (k, k) for k in range(2, 14)) + "\nt ld,i5\nsnap\nprobe\nt ld,i5\nt ld,b0\n" + tail)
+        mk("inherit-nested-loads-to-the-limit", "\n".join("script o%d create ld,b%d" % (k, k) for k in range(2, 14)) + "\nt ld,b1\nsnap\nt ld,b1\nt ct,ld,b40\nt ld,b41\n" + tail)
+        mk("inherit-by-clone-move-first_inventory", """script o2 create ld,i6;de,o3\nscript o5 create cl,i7\nscript o9 create mvs,o2,i8
+            t cl,i6\nsnap\nt ld,b0\nt mvs,o4,i7\nsnap\nprobe\nt fis,i8\nt fis,i8\nt ct,cl,i9\nt ld,i47\n""" + tail)
+        mk("inherit-both-creates-interfere", """script o2 create ld,i10;de,o3\nscript o3 create de,o2\nscript o4 create cl,i10\nt ld,i10\nsnap\nprobe\nt fo,i10\nt fo,b10\nt ld,i10\nt ld,b10\n""" + tail)
         # large population: every hash chain is long
         big = ["t ld,b%d" % k for k in range(120)] + ["t cl,b%d" % (k % 7) for k in range(100)]
         big += ["t mv,o%d,o%d" % (k + 30, 2 + k % 25) for k in range(150)]
@@ -387,9 +436,9 @@ class C08(Prop):
         return B
 
     OPS = [("ld", 9), ("cl", 14), ("mv", 28), ("de", 9), ("ec", 14), ("dc", 2), ("ln", 4), ("fo", 5), ("fl", 3),
-           ("kp", 3), ("rd", 2), ("err", 1), ("aa", 9), ("cmd", 8), ("mvs", 10), ("fis", 3), ("pr", 6), ("hbe", 7), ("hbd", 2), ("obf", 3), ("ct", 4)]
+           ("kp", 3), ("rd", 2), ("err", 1), ("aa", 9), ("cmd", 8), ("mvs", 10), ("fis", 3), ("pr", 6), ("hbe", 7), ("hbd", 2), ("obf", 3), ("ct", 4), ("ra", 2)]
     HOPS = [("ld", 5), ("cl", 8), ("mv", 24), ("de", 14), ("ec", 5), ("dc", 1), ("ln", 2), ("fo", 2), ("fl", 1),
-            ("kp", 2), ("rd", 2), ("err", 2), ("mvarg", 6), ("nop", 2), ("aa", 10), ("cmd", 3), ("mvs", 6), ("fis", 2), ("pr", 2), ("hbe", 2), ("hbd", 2), ("obf", 1), ("ct", 6)]
+            ("kp", 2), ("rd", 2), ("err", 2), ("mvarg", 6), ("nop", 2), ("aa", 10), ("cmd", 3), ("mvs", 6), ("fis", 2), ("pr", 2), ("hbe", 2), ("hbd", 2), ("obf", 1), ("ct", 6), ("ra", 3), ("ret0", 5)]
 
     def gen_op(self, rng, st, table, self_id=None):
         k = rng.weighted(table)
@@ -407,7 +456,9 @@ class C08(Prop):
                 return "o%d" % self_id
             return "o%d" % rng.range(2, hi)
         if k in ("ld", "cl"):
-            b = rng.weighted([("b%d" % rng.below(st["nbp"]), 30), ("nx", 1), ("bad", 1)])
+            b = rng.weighted([("b%d" % rng.below(st["nbp"]), 30), ("i%d" % rng.below(min(st["nbp"], NIH)), 5), ("nx", 1), ("bad", 1)])
+            if b[0] == "i":
+                st["est"] += 1   # (the inherited program may have to be loaded first)
             st["est"] += 1
             if table is self.OPS:
                 st["top"] += 1
@@ -436,6 +487,8 @@ class C08(Prop):
             return "fis,%s" % rng.weighted([("b%d" % rng.below(st["nbp"]), 6), ("b%d" % (st["nbp"] + rng.below(40)), 6), ("nx", 1)])
         if k in ("de", "ec", "dc", "kp", "hbe", "hbd"):
             return "%s,%s" % (k, oid())
+        if k == "ra":
+            return "ra,%s,%s" % (oid(), rng.choice(["va", "vb", "vc"]))
         if k == "aa":
             return "aa,%s,%s" % (oid(), rng.choice(["va", "vb", "vc"]))
         if k == "cmd":
@@ -490,7 +543,32 @@ class C08(Prop):
                     target = rng.range(2, max(2, st["est"] + 1))
                 ops = [self.gen_op(rng, st, self.HOPS, target) for _ in range(rng.range(1, 3))]
                 body.append("script o%d %s %s" % (target, hk, ";".join(ops)))
-            if rng.chance(1, 10) and st["top"] >= 3:
+            if rng.chance(1, 9) and st["top"] >= 4:
+                # several objects offer the same verb to one command giver; their action functions return 0 ("not my
+                # verb") after destructing / moving the command giver, themselves or the next one, or removing actions
+                x = rng.range(2, st["top"] + 1)
+                ys = [rng.range(2, st["top"] + 1) for _ in range(rng.range(2, 4))]
+                v = rng.choice(["va", "vb"])
+                env = rng.range(2, st["top"] + 1)
+                body += ["t mv,o%d,o%d" % (z, env) for z in [x] + ys]
+                body.append("t ec,o%d" % x)
+                st["lastec"] = x
+                body += ["t aa,o%d,%s" % (y, v) for y in ys]
+                ES = st.setdefault("extra_scripts", [])
+                for y in ys:
+                    if rng.chance(3, 4):
+                        what = rng.weighted([("ret0", 6), ("de,o%d;ret0" % x, 5), ("de,o%d;ret0" % y, 3), ("de,o%d;ret0" % rng.choice(ys), 3),
+                                             ("mv,o%d,o%d;ret0" % (x, rng.range(2, st["top"] + 1)), 3), ("ra,o%d,%s;ret0" % (y, v), 3),
+                                             ("ra,o%d,%s" % (rng.choice(ys), v), 2), ("mv,o%d,o%d;ret0" % (y, rng.range(2, st["top"] + 1)), 2),
+                                             ("aa,o%d,%s;ret0" % (y, v), 1), ("cmd,o%d,%s;ret0" % (x, v), 1), ("ct,de,o%d;ret0" % x, 1), ("err", 1)])
+                        ES.append("script o%d act %s" % (y, what))
+                if rng.chance(1, 2):
+                    # a non-empty sentence free list (destruct_object frees the sentences of the object)
+                    body += ["t de,o%d" % rng.choice(ys)]
+                body.append("t cmd,o%d,%s" % (x, v))
+                if rng.chance(1, 2):
+                    body.append("t cmd,o%d,%s" % (x, v))
+            elif rng.chance(1, 10) and st["top"] >= 3:
                 # a command that (mostly) reaches an action: enable x, let y offer a verb, x issues it (maybe later)
                 x, y = rng.range(2, st["top"] + 1), rng.range(2, st["top"] + 1)
                 v = rng.choice(["va", "vb", "vc"])
@@ -512,6 +590,35 @@ class C08(Prop):
                 body.append("t pr,o%d,o%d" % (e, rng.choice(xs)))
                 if rng.chance(1, 2):
                     body.append("t pr,o%d,o%d" % (e, rng.choice(xs)))
+            elif rng.chance(1, 8):
+                # loads that RE-ENTER: i<k> inherits b<k> (not loaded yet, so load_object loads it first and runs its
+                # create()); that create() - or the create() of i<k> itself - loads / clones / moves to / destructs
+                # the very objects being loaded
+                kk = rng.range(8, NIH - 1)
+                f = "i%d" % kk
+                nb, nx = st["top"] + 1, st["top"] + 2
+                ES = st.setdefault("extra_scripts", [])
+                if rng.chance(1, 5):
+                    body.append("t ld,b%d" % kk)      # the inherited program is already there
+                    nb, nx = nb + 1, nx + 1
+                    st["top"] += 1
+                    st["est"] += 1
+                else:
+                    for tgt in ([nb] if rng.chance(2, 3) else [nb, nb + 1]):
+                        ES.append("script o%d create %s" % (tgt, rng.weighted([
+                            ("ld,%s" % f, 8), ("cl,%s" % f, 4), ("de,o%d" % tgt, 3), ("ld,%s;de,o%d" % (f, tgt), 2),
+                            ("ld,%s;de,o%d" % (f, tgt + 1), 2), ("err", 1), ("ct,ld,%s" % f, 1), ("fis,%s" % f, 1),
+                            ("mvs,o%d,%s" % (rng.range(2, max(2, st["top"])), f), 2), ("ld,%s;ld,%s" % (f, f), 1)])))
+                if rng.chance(1, 2):
+                    ES.append("script o%d create %s" % (nx, rng.weighted([
+                        ("ld,%s" % f, 4), ("cl,%s" % f, 4), ("de,o%d" % nx, 2), ("de,o%d" % nb, 2), ("ld,b%d" % kk, 1), ("err", 1)])))
+                body.append("t " + rng.weighted([("ld,%s" % f, 6), ("cl,%s" % f, 3), ("fis,%s" % f, 1),
+                                                 ("mvs,o%d,%s" % (rng.range(2, max(2, st["top"])), f), 2)]))
+                st["top"] += 2
+                st["est"] += 3
+                body += ["snap", "probe", "t fo,%s" % f, "t ld,%s" % f]
+                if rng.chance(1, 2):
+                    body += ["t de,o%d" % rng.choice([nb, nx, nx + 1]), "snap", "t fo,%s" % f, "t fo,b%d" % kk, "t ld,%s" % f]
             elif rng.chance(1, 9) and st["top"] >= 3:
                 # objects(filter): the filter (called once per object, newest first) destructs the object it is asked
                 # about, one it was asked about earlier, one still to come, or creates / moves objects
@@ -698,7 +805,11 @@ class C08(Prop):
             ("init-after-item-left", born + ["new o4 c08/b1", "he o4 create", "mvb o3 o2", "hb o2 init o3", "mvb o3 o4", "r mv o3 o4 ok", "he o2 init", "hb o3 init o2"]),
             ("init-with-object-outside-destination", born + ["new o4 c08/b1", "he o4 create", "mvb o3 o2", "hb o3 init o4"]),
             ("move_or_destruct-outside-destruct", born + ["hb o3 mod 0"]),
-            ("found-destructed", ["r ld c08/b0 0 1"]),
+            ("found-destructed", ["r ld c08/b0 0 1 0"]),
+            ("load-find-disagree", born + ["r ld c08/b0 o2 1 o3"]),
+            ("load-find-disagree", born + ["r ld c08/b0 0 1 o3"]),
+            ("ok", born + ["r ld c08/b0 o2 1 o2"]),
+            ("ok", born + ["r ld c08/b0 ? 1 ?"]),
             ("found-destructed", ["r fo c08/b0 0 1"]),
             ("found-destructed", ["r fl la 0 1"]),
             ("found-destructed", ["P o2 ref=o2 find=0/1 env=0 inv= walk= fl=-"]),
@@ -731,6 +842,9 @@ class C08(Prop):
             ("destruct-refused", born + ["ctb o1", "deb o3", "caught *Only this_object() can be destructed from move_or_destruct.", "r ct o1 1"]),
             ("frame-mismatch", born + ["r ct o1 0"]),
             ("frame-mismatch", born + ["ctb o1", "deb o3", "r ct o1 0"]),
+            ("ok", born + ["r ra o3 va 1", "r ra o3 va 0", "r ra o9 va !gone"]),
+            ("destructed-visible", dead3 + ["r ra o3 va 0"]),
+            ("ok", born + ["new o4 c08/b1", "he o4 create", "mvsb o2 c08/b1", "mvb o2 o3", "r mv o2 o3 ok", "r mvs o2 c08/b1 ok ?", "mvb o4 o2", "err *Can't move object inside itself."]),
             ("walker", ["W ot-destructed o2"]),
             ("crash", ["crash signal 11"]),
             ("memory-error", ["sanitizer ERROR: AddressSanitizer: heap-use-after-free"]),
@@ -759,11 +873,15 @@ class C08(Prop):
     # ---- implementation side -------------------------------------------------
     def prepare(self, ctx):
         self.exe = E.compile_harness("c08", [os.path.join(E.VERIF, "harness/c08/c08.c")])
-        self.conf = E.make_mudlib(ctx.rundir, master="/c08/master.c", extra_conf="ObjectHashSize %d\n" % OT_SIZE)
+        self.conf = E.make_mudlib(ctx.rundir, master="/c08/master.c",
+                                  extra_conf="ObjectHashSize %d\nMaxInheritDepth %d\n" % (OT_SIZE, MAX_INHERIT))
         d = os.path.join(ctx.rundir, "mudlib", "c08")
         for k in range(NBP_LARGE):
             with open(os.path.join(d, "b%d.c" % k), "w") as f:
                 f.write('#include "/c08/obj.c"\n')
+        for k in range(NIH):
+            with open(os.path.join(d, "i%d.c" % k), "w") as f:
+                f.write('inherit "/c08/b%d";\n' % k)
         with open(os.path.join(d, "bad.c"), "w") as f:
             f.write("void create () { this is not LPC\n")
 
